@@ -177,7 +177,7 @@ class Fixture:
         if o.is_leaf() or isinstance(o, pp.ad.ProjectionList):
             return ["leaf", type(o).__name__, self.leaf_name(o), int(getattr(o, "_time_step_index", -1)),
                     int(getattr(o, "_iterate_index", -1))]
-        if o.operation == pp.ad.Operations.evaluate:
+        if o.operation == pp.ad.operators.Operations.evaluate:
             f = getattr(getattr(o, "func", None), "__self__", None)
             return ["eval", str(getattr(f, "_name", "?")), [self.project(c) for c in o.children]]
         cs = [self.project(c) for c in o.children]
@@ -245,8 +245,11 @@ class Fixture:
 
 
 # ---- number conversion ------------------------------------------------------------------------------------------------
+MAXDEN = 1000     # any double is within 1e-9 of SOME fraction with a denominator up to 1e6; up to 1e3 only exact ones are
+
+
 def _rat(x):
-    r = codec.rat(x)
+    r = codec.rat(x, maxden=MAXDEN)
     return [int(r[0]), int(r[1])]
 
 
@@ -315,16 +318,23 @@ def execute(fix, rec, entry):
     out = dict(expr=expr, entry=entry, seed=fix.seed, berr="", built=["error"],
                d=dict(err="", kind="", n=0, val=[], jshape=[0, 0], jac=[]),
                v=dict(err="", kind="", n=0, val=[]),
-               r=dict(kind="", n=0, val=[], jac=[], finite=True), exact=True, q=dict(dv=0, dj=0, vv=0), prev=[])
+               r=dict(err="", kind="", n=0, val=[], jac=[], finite=True), exact=True, q=dict(dv=0, dj=0, vv=0), prev=[])
     state = fix.state0 if entry == 2 else fix.state
     ad = pp.ad.initAdArrays([state.copy()])[0]
     with warnings.catch_warnings(), np.errstate(all="ignore"):
         warnings.simplefilter("ignore")
-        ref = fix.direct(rec["prog"], ad)          # an exception here is a defect of the typing rules: machinery
-        rk = _kind(ref)
-        rval = ref.val if rk == "AdArray" else _as_vec(ref)
-        rjac = _dense(ref.jac) if rk == "AdArray" else np.zeros((rval.size, fix.ndof))
-        finite = bool(np.all(np.isfinite(rval)) and np.all(np.isfinite(rjac)))
+        try:
+            ref = fix.direct(rec["prog"], ad)      # any other exception here is a defect of the typing rules: machinery
+        except ArithmeticError as e:               # division by zero / overflow: the expression is undefined at this state
+            ref = None
+            out["r"]["err"] = _err(e)
+        if ref is None:
+            rk, rval, rjac, finite = "", np.zeros(0), np.zeros((0, fix.ndof)), False
+        else:
+            rk = _kind(ref)
+            rval = ref.val if rk == "AdArray" else _as_vec(ref)
+            rjac = _dense(ref.jac) if rk == "AdArray" else np.zeros((rval.size, fix.ndof))
+            finite = bool(np.all(np.isfinite(rval)) and np.all(np.isfinite(rjac)))
         out["r"].update(kind=rk, n=int(rval.size), finite=finite)
         o = None
         try:
@@ -376,8 +386,11 @@ def execute(fix, rec, entry):
         # sub-expressions at a previous time step / iterate, evaluated alone
         for p in rec["prev"]:
             pr = dict(expr=p["expr"], err="", n=0, val=[], jnnz=0, ref=[], exact=True, q=0, finite=True)
-            pref = _as_vec(fix.direct(p["prog"], ad))
-            pr["finite"] = bool(np.all(np.isfinite(pref)))
+            try:
+                pref = _as_vec(fix.direct(p["prog"], ad))
+                pr["finite"] = bool(np.all(np.isfinite(pref)))
+            except ArithmeticError:
+                pref, pr["finite"] = np.zeros(0), False
             try:
                 po = fix.build(p["expr"])
                 pres = _evaluate(fix, po, True, entry)
@@ -401,12 +414,15 @@ def execute(fix, rec, entry):
 
 # ---- TLC runs -------------------------------------------------------------------------------------------------------------
 def spec_consts(fix, style="swap", optout=True):
-    return dict(Leaves=fix.leaves, ReflectedStyle=style, UfuncOptOut=optout, MaxIndex=1)
+    return dict(Leaves=fix.leaves, LeafTab={lf["name"]: lf for lf in fix.leaves}, ReflectedStyle=style, UfuncOptOut=optout,
+                MaxIndex=1)
 
 
-def enumerate_exprs(ctx, fix, max_depth, two_sided, emit_from=0, simulate=None, tag="enum", timeout=1500):
-    consts = dict(spec_consts(fix), MaxDepth=max_depth, TwoSided=two_sided, EmitFrom=emit_from)
-    m, cf = tlc.gen(ctx.work / tag, "MC_OperatorTreeEnum", "OperatorTreeEnum", consts, invariants=["Emit"] + DESIGN_LAWS)
+def enumerate_exprs(ctx, fix, max_depth, two_sided, emit_from=0, simulate=None, tag="enum", timeout=1500, sample=(1, 0),
+                    pair_all=True):
+    consts = dict(spec_consts(fix), MaxDepth=max_depth, TwoSided=two_sided, EmitFrom=emit_from, CoreStart=bool(simulate),
+                  SampleMod=sample[0], SampleRes=sample[1], PairAll=pair_all)
+    m, cf = tlc.gen(ctx.work / tag, "MC_OperatorTreeEnum", "OperatorTreeEnum", consts, invariants=["Emit", "DesignLaws"])
     kw = dict(workers=8, allow_violation=False, timeout=timeout)
     if simulate:
         kw.update(simulate=simulate, depth=max_depth + 1, workers=1)
@@ -460,7 +476,7 @@ def judge(ctx, fix, outs, prefix=""):
     for lo in range(0, len(outs), 4000):
         batch = outs[lo:lo + 4000]
         cases = [{k: o[k] for k in ("expr", "berr", "built", "d", "v", "r", "exact", "q", "prev")} for o in batch]
-        for v in ctx.judge("J_OperatorTree", cases, CLAUSES, consts=jc, workers=8):
+        for v in ctx.judge("J_OperatorTree", cases, ["Verdict"], consts=jc, workers=8):
             o = batch[v["case"] - 1]
             rec = dict(expr=o["expr"], prog=o["prog"], prevprogs=o["prevprogs"], entry=o["entry"], seed=o["seed"],
                        observed={k: o[k] for k in ("berr", "built", "d", "v", "r", "exact", "q", "prev")})
@@ -498,7 +514,7 @@ def run(ctx):
     ctx.assumptions = [
         "stored values, state, arrays and matrices are drawn (seeded) from the lattice {1/2,1,3/2,2,5/2,3}: all positive",
         "numbers are compared as exact rationals when every number of the case is within 1e-9 of a rational with "
-        "denominator <= 1e6; otherwise by the largest deviation |x-ref|/max(1,|ref|): <= 1e-9 passes, > 1e-6 fails, the "
+        "denominator <= 1000; otherwise by the largest deviation |x-ref|/max(1,|ref|): <= 1e-9 passes, > 1e-6 fails, the "
         "band in between is inconclusive (DESIGN 8)",
         "expressions whose direct evaluation is not finite at the state (division by zero, overflow) are outside the family",
         "well-typed = the typing rules of the forward-mode arrays (OperatorTree.DirectK): scalars / equally sized arrays / "
@@ -508,24 +524,23 @@ def run(ctx):
     ]
     fix = Fixture(ctx.seed)
     if ctx.quick:
-        recs = enumerate_exprs(ctx, fix, 2, False)
-        d01 = [r for r in recs if depth(r["expr"]) <= 1]
-        d2 = [r for r in recs if depth(r["expr"]) == 2]
-        pick = sorted(ctx.rng.sample(range(len(d2)), min(len(d2), 1200)))
-        chosen = d01 + [d2[i] for i in pick]
-        ctx.exhaustive = False
+        # depth <= 1 over all leaves: exhaustive; depth 2: random walks over the core leaves
+        # (one TLC run: composites of depth 1 are expanded if their structural hash = seed mod 29)
+        recs = enumerate_exprs(ctx, fix, 2, False, sample=(29, ctx.seed % 29), pair_all=False)
+        chosen = recs
+        ctx.extra["depth2_sampled"] = sum(1 for r in recs if depth(r["expr"]) == 2)
     else:
-        recs = enumerate_exprs(ctx, fix, 2, True, timeout=3000)
-        d01 = [r for r in recs if depth(r["expr"]) <= 1]
-        d2 = [r for r in recs if depth(r["expr"]) == 2]
-        pick = sorted(ctx.rng.sample(range(len(d2)), min(len(d2), 40000)))
-        d3 = enumerate_exprs(ctx, fix, 3, False, emit_from=3, simulate="num=6000", tag="enum3")
-        chosen = d01 + [d2[i] for i in pick] + d3
-        ctx.exhaustive = False
+        # depth <= 2 (one operand of a composite is a core leaf): exhaustive; composite op composite and depth 3: sampled
+        recs = enumerate_exprs(ctx, fix, 2, False, timeout=3000)
+        d2 = enumerate_exprs(ctx, fix, 2, True, emit_from=2, simulate="num=150", tag="enum2", timeout=3000)
+        d3 = enumerate_exprs(ctx, fix, 3, False, emit_from=3, simulate="num=60", tag="enum3", timeout=3000)
+        seen = {repr(r["expr"]) for r in recs}
+        d2 = [r for r in d2 if repr(r["expr"]) not in seen]
+        chosen = recs + d2 + d3
+        ctx.extra["depth2_two_sided_sampled"] = len(d2)
         ctx.extra["depth3_sampled"] = len(d3)
-    ctx.extra["enumerated"] = len(recs)
-    ctx.extra["enumerated_depth_le1"] = len(d01)
-    ctx.extra["enumerated_depth2"] = len(d2)
+    ctx.exhaustive = False
+    ctx.extra["enumerated_exhaustively"] = len(recs)
     outs = run_cases(ctx, fix, chosen)
     ctx.extra["executed"] = len(outs)
     ctx.extra["executed_raw_left_operand"] = sum(1 for o in outs if raw_left(o["expr"]))
